@@ -158,6 +158,8 @@ def main():
             {"name": "E2 state space + reference model", "path": "mc/oracle.py", "serves_properties": ["C01", "C02", "C03", "C04", "C08", "C09", "C10", "C16"], "kind_free_text": "all abstract clone trees over n data points; closed-form FS-CRP reference; literal-sum grid marginal"},
             {"name": "E3 edit-history BFS", "path": "mc/editbfs.py", "serves_properties": ["C06", "C07", "C15", "C09", "C03"], "kind_free_text": "explicit-state breadth-first search over the real Tree object with canonical-state de-duplication; every public read between edits; isolation scenarios with several live trees"},
             {"name": "E5 TLC pool model", "path": "mc/tla/ChainPool.tla", "serves_properties": ["C18"], "kind_free_text": "TLA+ model of the process pool, every path replayed against the implementation"},
+            {"name": "E5 storage devices", "path": "mc/checks/c20.py", "serves_properties": ["C20"], "kind_free_text": "in-memory device logging every write call (byte-prefix and ENOSPC enumeration) and a write-session device for whole runs"},
+            {"name": "E6 command-line driver", "path": "mc/clidrv.py", "serves_properties": ["C12", "C15", "C19"], "kind_free_text": "real click command line invoked in-process with the process pool replaced by an in-process executor whose completion order the harness decides; option alphabet derived from the repository's click declarations"},
         ],
         "checks": checks,
         "not_applicable": na,
